@@ -10,6 +10,7 @@ import (
 	"crypto/rand"
 	"errors"
 	"fmt"
+	"sync"
 	"time"
 
 	"hop.computer/hop/authkeys"
@@ -19,6 +20,7 @@ import (
 
 	"verif/harness/bub"
 	"verif/harness/fix"
+	"verif/harness/perturb"
 	"verif/harness/simnet"
 	"verif/harness/vh"
 )
@@ -247,9 +249,34 @@ func clientVerifiesServer(r *vh.Runner, c *vh.Case, pki *fix.PKI, hidden bool, p
 	}
 	cfg := fix.ClientConfig(me, *pol.config(pki, name, authorized), 3*time.Second, sk)
 	cl := transport.NewClient(cep, saddr, cfg)
+	// other goroutines of the application ask at the same time and a little
+	// later (the elected caller is delayed around the moment it publishes its
+	// result): nobody may be told that the handshake succeeded unless it did
+	pt := perturb.Install(uint64(len(p.Class))*7919+uint64(len(pol.Name)), false, 100)
+	var others [4]error
+	var owg sync.WaitGroup
+	for k := range others {
+		owg.Add(1)
+		late := time.Duration(k) * 900 * time.Microsecond
+		go func() {
+			defer owg.Done()
+			time.Sleep(late)
+			others[k] = cl.Handshake()
+		}()
+	}
 	res := runHandshake(cl)
+	bub.Within(bub.Go(owg.Wait), 60*time.Second)
+	pt.Remove()
 	defer cl.Close()
 	policyOK, legit := legitimate(pol, p, authSet)
+	if res.Err != nil && res.Returned {
+		for k, e := range others {
+			if e == nil {
+				c.Violate("C01:another-caller-is-told-the-failed-handshake-succeeded:"+p.Class, map[string]any{"policy": pol.Name, "class": p.Class, "caller": k, "elected_callers_error": res.Err.Error()})
+				return
+			}
+		}
+	}
 	mode := "discoverable"
 	if hidden {
 		mode = "hidden"
